@@ -159,6 +159,8 @@ def candidates(case):
         c = copy.deepcopy(case)
         del c['faults'][i]
         yield c
+    for c in shrink.drop_cycle_variants(case):
+        yield c
     if case['sched'].get('iter_policy') or case['sched'].get('perm_seed') is not None:
         c = copy.deepcopy(case)
         c['sched']['iter_policy'] = None
